@@ -73,3 +73,11 @@ Theorem C15_source_decompress_handler : forall sym, sym "nil" = 0 -> sym "io.EOF
   else names st' = prepared /\ body_of st' = 0 /\ ret = [err].
 Proof. intros sym H1 H2. apply src_decompress_handler_spec; assumption. Qed.
 Print Assumptions C15_source_decompress_handler.
+
+(* non-vacuity: an interpretation of the constants that meets both hypotheses; a gzip request whose body Reset accepts *)
+Example decompress_src_example :
+  let sym := fun s : string => if String.eqb s "io.EOF" then 5 else if String.eqb s "GZIPEncoding" then 7 else if String.eqb s "result of next" then 200 else 0 in
+  sym "nil" = 0 /\ sym "io.EOF" <> 0 /\
+  (let '(st', ret) := run sym src_decompress_handler_results src_decompress_handler (start 0 7 1 9 1 0) in
+   names st' = (prepared ++ ["defer gr.Close()"; "next"])%list /\ body_of st' = 9 /\ ret = [200]).
+Proof. split; [reflexivity|]. split; [discriminate|]. vm_compute. repeat split; reflexivity. Qed.
